@@ -20,7 +20,8 @@ MANIFEST = {
             'package and the per-phase sub-streams phase_split iterates are dropped or re-attached when the flow container is re-bound. In partition and '
             'phase_fraction the bottom flows are x*(1-phi)*F with x = z/D and D-(1-phi) == phi*K as polynomials, which with the closure gives top_i/bottom_i = '
             'K_i*phi/(1-phi) (the given coefficients up to the common factor). In partition the bottom outlet is written as a whole before top = feed - bottom on '
-            'every path. Reached moisture and solver accuracy are not decided.',
+            'every path. In adjust_moisture_content the moisture set in one stream and taken out of the other go through the same basis view. Reached moisture and '
+            'solver accuracy are not decided.',
 }
 
 SEP = 'thermosteam/separations.py'
